@@ -61,6 +61,14 @@ structure Cfg where
   before the fix: `Close()` returns early with the closed descriptor still in `f.out`. Determined on every
   run from the real `Close()` (harness probe) and from its regenerated skeleton (`Nsq.Tie.ToolsToFile.close_eq`). -/
   closeClears    : Bool := false
+  /-- the router writes body and "\n" with ONE `Write` (fix F46; `false` = two writes: a stop, or another writer's
+  O_APPEND write, can land between them). Probed on the real router by the harness (`vfE8ProbeOneWrite`) and read off
+  the regenerated skeleton (`Nsq.Tie.ToolsToFile.router_known_shapes`). -/
+  oneWrite       : Bool := false
+  /-- `updateFile` seals a torn tail (fix F47): when it opens an existing non-empty file in append mode (no O_EXCL)
+  whose last byte is not "\n" it first writes "\n". Probed on the real `updateFile` (`vfE8ProbeSealsTail`) and read
+  off the regenerated skeleton (`Nsq.Tie.ToolsToFile.updateFile_known_shapes`). -/
+  sealsTail      : Bool := false
 deriving DecidableEq, Repr
 
 /-- what `computeFilenameFormat` enforces -/
@@ -92,7 +100,17 @@ inductive Ev
   /-- environment: another process creates a new file under a name that is free (e.g. a second
   nsq_to_file instance putting a finished file into the shared output dir) -/
   | ext (p : Path) (data : Bytes)
+  /-- environment: another writer that has the *existing* plain file `p` open with O_APPEND (a second router of the
+  same tool whose `--filename-format` lacks `<TOPIC>`, audit C4) appends `data` with one write(2). Files opened with
+  O_EXCL (gzip / rotate-interval) are never shared: no effect there. -/
+  | extAppend (p : Path) (data : Bytes)
 deriving Repr
+
+/-- an event of the environment (not of the tool) -/
+def Ev.isExt : Ev → Bool
+  | .ext _ _ => true
+  | .extAppend _ _ => true
+  | _ => false
 
 structure St where
   fs       : FS
@@ -121,6 +139,12 @@ def fileWrite (gz : Bool) (p : Bytes) (f : File) : File :=
 def fileGzClose (f : File) : File := { f with data := f.data ++ f.tail, tail := [] }
 
 def fileFsync (f : File) : File := { f with durable := max f.durable f.data.length }
+
+/-- everything handed to `write` so far (plain files: `tail = []`) -/
+def File.content (f : File) : Bytes := f.data ++ f.tail
+
+/-- the bytes are empty or end in "\n": the next record appended behind them starts a line -/
+def nlEndedB (b : Bytes) : Bool := b.isEmpty || b.getLast? == some 10
 
 /-! ### primitives -/
 
@@ -229,6 +253,14 @@ def closeOut (c : Cfg) (io : Nat → Fault) (st : St) : St :=
     else if c.workDir = false then clearOut st3
     else moveOut c io st3
 
+/-- fix F47: an existing file `f` just opened for appending (no O_EXCL) whose last byte is not "\n" (a writer died
+inside a record) is sealed with "\n" first; the read of the last byte is part of the open primitive -/
+def sealTail (c : Cfg) (io : Nat → Fault) (s1 : St) (f : File) : St :=
+  if c.sealsTail && !c.excl && !nlEndedB f.content then
+    let s2 := onOut io s1 (fileWrite c.gzip [10])
+    if s2.status ≠ .running then s2 else { s2 with filesize := s2.filesize + 1 }
+  else s1
+
 /-- the loop of `updateFile` that finds a free revision and opens the file -/
 def openNew (c : Cfg) (io : Nat → Fault) (st : St) (fn : String) : St :=
   guard io st fun s =>
@@ -238,8 +270,11 @@ def openNew (c : Cfg) (io : Nat → Fault) (st : St) (fn : String) : St :=
       match s.fs.get (mkPath c (!c.workDir) fn r) with
       | none => { s with fs := s.fs.set (mkPath c (!c.workDir) fn r) ⟨[], [], 0⟩, hasOut := true, outOpen := true,
                          outPath := mkPath c (!c.workDir) fn r, rev := r, filesize := 0 }
-      | some f => { s with hasOut := true, outOpen := true, outPath := mkPath c (!c.workDir) fn r, rev := r,
-                           filesize := f.data.length }
+      | some f =>
+        sealTail c io
+          { s with hasOut := true, outOpen := true, outPath := mkPath c (!c.workDir) fn r, rev := r,
+                   filesize := f.data.length }
+          f
 
 /-- `updateFile()` -/
 def updateFile (c : Cfg) (io : Nat → Fault) (st : St) (now : Int) (fn : String) : St :=
@@ -247,9 +282,14 @@ def updateFile (c : Cfg) (io : Nat → Fault) (st : St) (now : Int) (fn : String
   let st2 := { st1 with rev := if fn ≠ st1.filename then 0 else st1.rev + 1, filename := fn, openTime := now }
   openNew c io st2 fn
 
-/-- the `case m := <-f.logChan` body after rotation: two writes, then `output[pos] = m; pos++` -/
+/-- the record of one message: body and "\n" as two writes (a stop can land between them), or — fix F46 — one -/
+def writeLine (c : Cfg) (io : Nat → Fault) (st : St) (m : Msg) : St :=
+  if c.oneWrite then onOut io st (fileWrite c.gzip (m.body ++ [10]))
+  else onOut io (onOut io st (fileWrite c.gzip m.body)) (fileWrite c.gzip [10])
+
+/-- the `case m := <-f.logChan` body after rotation: the record, then `output[pos] = m; pos++` -/
 def writeMsg (c : Cfg) (io : Nat → Fault) (st : St) (m : Msg) : St :=
-  let st2 := onOut io (onOut io st (fileWrite c.gzip m.body)) (fileWrite c.gzip [10])
+  let st2 := writeLine c io st m
   if st2.status ≠ .running then st2
   else if st2.pending.length ≥ c.maxInFlight then { st2 with status := .panicked }
   else { st2 with filesize := st2.filesize + (m.body.length + 1), pending := m :: st2.pending }
@@ -274,6 +314,10 @@ def step (c : Cfg) (io : Nat → Fault) (st : St) (ev : Ev) (starved : Bool) : S
   | .term => syncBlock c io st
   | .stopped => finishRun (closeOut c io (syncBlock c io st))
   | .ext p data => if (st.fs.get p).isSome then st else { st with fs := st.fs.set p ⟨data, [], data.length⟩ }
+  | .extAppend p data =>
+    match st.fs.get p with
+    | none => st
+    | some f => if c.excl then st else { st with fs := st.fs.set p (fileWrite false data f) }
 
 def run (c : Cfg) (io : Nat → Fault) (st : St) : List (Ev × Bool) → St
   | [] => st
